@@ -57,8 +57,8 @@ def mkEnv (mode : EqMode) : Env DKey DVal DKey :=
     vGlue := true }
 
 def render : Render DKey DVal :=
-  { dbgK := fun k => s!"K{k.cls}.{k.id}"
-    dbgV := fun v => s!"V{v.id}.{v.val}"
+  { dbgK := fun alt k => if alt then s!"K(\n    {k.cls},\n    {k.id},\n)" else s!"K{k.cls}.{k.id}"
+    dbgV := fun alt v => if alt then s!"V(\n    {v.id},\n    {v.val},\n)" else s!"V{v.id}.{v.val}"
     dspK := fun k => s!"k{k.cls}.{k.id}"
     dspV := fun v => s!"v{v.id}.{v.val}" }
 
